@@ -576,7 +576,7 @@ pub fn c06(seed: u64, budget: u64) -> FOut {
 /// C11: suspicion timeout takes effect iff unrefuted; Down final until forgotten
 pub fn c11(seed: u64, budget: u64) -> FOut {
     let mut out = FOut::default();
-    out.rule = "exhaustive case table on the real crate: stored record {absent, Alive, Suspect, Down} x stored incarnation vs timer incarnation {<,=,>} x timer identity generation {older, same} vs stored x token {current, stale} x notify_down_members {on,off} x duplicate delivery, with a second active member keeping the instance connected; expected: effect iff token current, same identity, same incarnation, record active; otherwise no effect at all. Then genuine timers: the suspicion is raised by a real failed probe round (instance 0..2 refutations ahead of the member, member at incarnation 0/1/7) and the timer the instance scheduled itself is fired, unrefuted (must take effect) or after a header with a higher incarnation (must have none). Then epochs: a timeout scheduled before leave_cluster / TurnUndead / Down(self) / change_identity fires afterwards with the record still Suspect (must have no effect). Then random histories checking that a Down identity never becomes active again before its RemoveDown fires (or a newer identity supersedes it). distinct = distinct table rows + histories with at least one Down record".into();
+    out.rule = "exhaustive case table on the real crate: stored record {absent, Alive, Suspect, Down} x stored incarnation vs timer incarnation {<,=,>} x timer identity generation {older, same} vs stored x token {current, stale} x notify_down_members {on,off} x duplicate delivery, with a second active member keeping the instance connected; expected: effect iff token current, same identity, same incarnation, record active; otherwise no effect at all. Then genuine timers: the suspicion is raised by a real failed probe round (instance 0..2 refutations ahead of the member, member at incarnation 0/1/7, in half of the rows the same suspicion also arrives by gossip while the round is open) and the timer the instance scheduled itself is fired, unrefuted (must take effect) or after a header with a higher incarnation (must have none). Then epochs: a timeout scheduled before leave_cluster / TurnUndead / Down(self) / change_identity fires afterwards with the record still Suspect (must have no effect). Then random histories checking that a Down identity never becomes active again before its RemoveDown fires (or a newer identity supersedes it). distinct = distinct table rows + histories with at least one Down record".into();
     let own = VId::new(9, 1, 0, 0);
     let other = VId::new(2, 0, 0, 0);
     for notify in [false, true] {
@@ -638,7 +638,7 @@ pub fn c11(seed: u64, budget: u64) -> FOut {
     for own_bumps in 0..3u16 {
         for minc in [0u16, 1, 7] {
             for refute in [false, true] {
-                for notify in [false, true] {
+                for (notify, heard) in [(false, false), (true, false), (false, true), (true, true)] {
                     use foca::Message as Mg;
                     let mut cfg = big_cfg();
                     cfg.notify_down_members = notify;
@@ -665,6 +665,11 @@ pub fn c11(seed: u64, budget: u64) -> FOut {
                                         if let Mg::Ping(k) = h.message {
                                             if *d == b {
                                                 failed_b = true; // no answer from b in this round
+                                                if heard {
+                                                    // the suspicion also arrives by gossip while the round is open (gossip arms no
+                                                    // timer): the instance's own failed round must still arm the timeout
+                                                    run_real(&mut a.foca, &Input::ApplyMany(vec![MMember { id: b, inc: minc, state: 1 }], false));
+                                                }
                                             } else {
                                                 run_real(&mut a.foca, &Input::Data(mk_dgram(*d, 0, own, Mg::Ack(k))));
                                             }
@@ -680,8 +685,8 @@ pub fn c11(seed: u64, budget: u64) -> FOut {
                         }
                     }
                     out.runs += 1;
-                    out.distinct.insert(hash_of(&("genuine", own_bumps, minc, refute, notify)));
-                    let row = format!("genuine timer: own refutations={own_bumps} member incarnation={minc} refuted={refute} notify={notify}");
+                    out.distinct.insert(hash_of(&("genuine", own_bumps, minc, refute, notify, heard)));
+                    let row = format!("genuine timer: own refutations={own_bumps} member incarnation={minc} refuted={refute} notify={notify} suspicion also heard by gossip mid-round={heard}");
                     let Some(t) = timer else {
                         out.hit("C11:no-suspicion-timeout-after-failed-round", J::s(row));
                         continue;
